@@ -1444,7 +1444,7 @@ func NewPointFromBytes(b []byte) (Point, error) {
 		case String:
 			// A string value consists of at least its two quotes; anything
 			// shorter would make StringValue slice out of range later on.
-			if v := p.it.valueBuf; len(v) < 2 || v[len(v)-1] != '"' {
+			if v := p.it.valueBuf; len(v) < 2 {
 				return nil, fmt.Errorf("unable to unmarshal field %s: unterminated string value", string(iter.FieldKey()))
 			}
 		case Boolean:
